@@ -47,4 +47,22 @@ CHECKS = {
         "note": "Trusted: hook H1 sits in every loop that can spin (Scanner::read, both Lexer::read); the fuel bound 8*len+256 (observed max 3 steps/byte).",
         "design_ref": "DESIGN.md §4 C03, §2 H1",
     },
+    "C07": {
+        "technique": "reference-evaluator monitor: printed filter -> libhaystack parse+eval vs. a harness evaluator of the stated semantics, over a complete term x tag-state matrix and random filters/records/resolvers/grids",
+        "level": "Term matrix complete for its pools (~5e3 cells); ~4.5e5 (quick) / ~1e7 (thorough) random (filter, record) evaluations. Don't-cares skipped and counted.",
+        "note": "Trusted: harness/src/reffilter.rs as the reading of the filter semantics in the property statement.",
+        "design_ref": "DESIGN.md §4 C07",
+    },
+    "C08": {
+        "technique": "tree observer: reference printer (random legal spacing) -> Filter::try_from -> tree read through public fields vs. harness AST; Display -> parse identity",
+        "level": "Small-tree space enumerated completely in thorough (2.96e5 trees), sampled in quick; plus 1.3e5 (quick) / 3.2e6 (thorough) random trees with every literal kind.",
+        "note": "Trusted: harness printer/AST as the reading of the filter grammar; refzinc writer for literal spellings.",
+        "design_ref": "DESIGN.md §4 C08",
+    },
+    "C09": {
+        "technique": "crash/abort/fuel monitor for Filter::try_from in isolated workers plus resolver-call-cap monitor for evaluation over cyclic ref worlds and the real defs namespace",
+        "level": "Held on ~1.5e6 (quick) / ~5e7 (thorough) parser executions incl. ladders to depth 1e5 and every prefix of valid filters; every accepted text evaluated under the call cap.",
+        "note": "Trusted: hook H1 covers the parser's loops; the resolver cap (40 calls for a 5-record world) is far above what a visited-set traversal needs (observed max reported).",
+        "design_ref": "DESIGN.md §4 C09",
+    },
 }
